@@ -131,7 +131,7 @@ def eventV1_eventV1_HistoryVisibility : List String := [
   "return \"\", fmt.Errorf(\"gomatrixserverlib: HistoryVisibility() event is not a m.room.history_visibility event, bad state key\")",
   "}",
   "var content HistoryVisibilityContent",
-  "if err := json.Unmarshal(e.eventFields.Content, &content); err != nil {",
+  "if err := json.Unmarshal(exactMembersOnly(e.eventFields.Content, &content), &content); err != nil {",
   "return \"\", err",
   "}",
   "return content.HistoryVisibility, nil"
@@ -157,7 +157,7 @@ def eventV1_eventV1_JoinRule : List String := [
   "return \"\", fmt.Errorf(\"gomatrixserverlib: JoinRule() event is not a m.room.join_rules event, bad state key\")",
   "}",
   "var content JoinRuleContent",
-  "if err := json.Unmarshal(e.eventFields.Content, &content); err != nil {",
+  "if err := json.Unmarshal(exactMembersOnly(e.eventFields.Content, &content), &content); err != nil {",
   "return \"\", err",
   "}",
   "return content.JoinRule, nil"
